@@ -174,9 +174,12 @@ impl BitFont {
     // const PSF1_MODEHASSEQ: u8 = 0x04;
     // const PSF1_MAXMODE: u8 = 0x05;
 
-    fn load_psf1(font_name: impl Into<String>, data: &[u8]) -> Self {
+    fn load_psf1(font_name: impl Into<String>, data: &[u8]) -> EngineResult<Self> {
         let mode = data[2];
         let charsize = data[3];
+        if charsize == 0 {
+            return Err(FontError::UnknownFontFormat(data.len()).into());
+        }
         let length = if mode & BitFont::PSF1_MODE512 == BitFont::PSF1_MODE512 { 512 } else { 256 };
 
         let mut res = Self {
@@ -189,7 +192,7 @@ impl BitFont {
             checksum: 0,
         };
         res.calculate_checksum();
-        res
+        Ok(res)
     }
 
     fn load_plain_font(font_name: impl Into<String>, data: &[u8]) -> EngineResult<Self> {
@@ -242,6 +245,9 @@ impl BitFont {
         }
         let height = u32::from_le_bytes(data[24..28].try_into().unwrap()) as usize;
         let width = u32::from_le_bytes(data[28..32].try_into().unwrap()) as usize;
+        if height == 0 || width == 0 {
+            return Err(FontError::UnknownFontFormat(data.len()).into());
+        }
 
         let mut r = BitFont {
             name: font_name.into(),
@@ -304,7 +310,7 @@ impl BitFont {
         }
         let magic16 = u16::from_le_bytes(data[0..2].try_into().unwrap());
         if magic16 == BitFont::PSF1_MAGIC {
-            return Ok(BitFont::load_psf1(font_name, data));
+            return BitFont::load_psf1(font_name, data);
         }
 
         let magic32 = u32::from_le_bytes(data[0..4].try_into().unwrap());
